@@ -59,6 +59,7 @@ type FnCtx struct {
 	quiet         int // >0: suppress obligations (spec-level calls)
 	curPos        token.Pos
 	writtenNames  map[string]bool // all heap names written in this function (for frame check)
+	curBinds      []Val // captured values of the closure being called by contract
 	freshT        map[string]types.Type // struct objects allocated by this function (incl. inlined callees)
 	volatileNames map[string]bool // heap names havocked at a monitor acquisition (other threads' writes): exempt from the frame check
 	inAcquire     bool
@@ -312,7 +313,7 @@ func (fc *FnCtx) load(st *State, a *Addr) Val {
 		}
 		return v
 	case AOpaque:
-		if structOf(a.T) != nil || a.Base == "" {
+		if _, isStruct := a.T.Underlying().(*types.Struct); isStruct || a.Base == "" {
 			return fc.freshVal(st, a.T, "opq")
 		}
 		fc.assumption("A-BOX: pointers to non-struct values held in parameters or fields are modelled as a separate memory per pointee type; they are assumed not to alias struct fields or slice elements the function also accesses directly")
@@ -382,7 +383,7 @@ func (fc *FnCtx) store(st *State, a *Addr, v Val) {
 		fc.noteCellWrite(a.Cell)
 		return
 	case AOpaque:
-		if structOf(a.T) != nil || a.Base == "" {
+		if _, isStruct := a.T.Underlying().(*types.Struct); isStruct || a.Base == "" {
 			fc.assumption("A-OPAQUE-STORE: store through a pointer the model does not track (" + types.TypeString(a.T, nil) + ")")
 			return
 		}
